@@ -370,6 +370,13 @@ func (p *parser) parseUnary() (Expr, error) {
 		}
 		return &EUnary{"-", x}, nil
 	}
+	if p.accept("*") {
+		x, err := p.parseUnary()
+		if err != nil {
+			return nil, err
+		}
+		return &EUnary{"*", x}, nil
+	}
 	return p.parsePostfix()
 }
 
